@@ -21,3 +21,5 @@ def check(ctx, rep):
     W.rule_M10(m, rep)
     W.rule_G1(m, rep)
     S.rule_A2_A3(ctx, rep)
+    # the sink's own emit is lock + one writer call: no flush or second write of its own
+    S.rule_lock_discipline(ctx, rep, 'G2', methods=('emit',))
